@@ -163,7 +163,30 @@ Theorem copy_sds_dim_scale_plumbing :
 Proof. exact copy_sds_dim_plumbing_lemma. Qed.
 Print Assumptions copy_sds_dim_scale_plumbing.
 
+(** copy_gr reads and writes the palette of EVERY image that has one: the only condition around GRreadlut and
+    GRwritelut is [has_pal == 1] (nothing that depends on other images, e.g. on the object table). *)
+Theorem palette_written_for_every_image_with_palette :
+  only_guard copy_gr_writelut_guards txt_has_pal = true /\ only_guard copy_gr_readlut_guards txt_has_pal = true.
+Proof. exact palette_written_lemma. Qed.
+Print Assumptions palette_written_for_every_image_with_palette.
+
+(** The GR file attributes: the GR interface is started on the output whenever the input's GR interface holds
+    anything (images OR file attributes), and on the copying trip list_glb reaches copy_gr_attrs unless a call fails
+    (no enclosing condition; every early exit before it is the inspection-trip test or the failure test of a call). *)
+Theorem gr_started_whenever_gr_content : forall ni na, 0 <= ni -> 0 <= na ->
+  truth (has_gr_elems ni na) = false -> ni = 0 /\ na = 0.
+Proof. exact gr_started_lemma. Qed.
+Print Assumptions gr_started_whenever_gr_content.
+
+Theorem gr_file_attrs_reached :
+  list_glb_gr_attrs_guards = [] /\ forallb benign_exit list_glb_exits_before_gr_attrs = true.
+Proof. exact gr_file_attrs_reached_lemma. Qed.
+Print Assumptions gr_file_attrs_reached.
+
 (** Non-vacuity: concrete, non-trivial states meeting the hypotheses. *)
+Example exits_nonempty : length list_glb_exits_before_gr_attrs = 4%nat /\ benign_exit [103; 114; 95; 111; 117; 116; 61; 61; 70; 65; 73; 76] = false /\
+  truth (has_gr_elems 0 2) = true /\ truth (has_gr_elems 0 0) = false.
+Proof. vm_compute. intuition. Qed.
 Example traversal_nonempty : In DFTAG_RI insert_image_tags /\ In DFTAG_RIG insert_image_tags /\ In DFTAG_NDG insert_sds_tags /\
   nth_error copy_gr_created 3 = Some [100; 116; 121; 112; 101] /\ nth_error copy_gr_inquired 3 = Some [100; 116; 121; 112; 101].
 Proof. vm_compute. intuition. Qed.
